@@ -24,11 +24,12 @@ fn live_segment_file(w: &World, bucket: u16) -> Option<(u32, std::path::PathBuf)
 
 /// one append through the real Database: result line + all C01/C02 oracles
 pub async fn do_append(ctx: &mut Ctx, w: &mut World, tx: &GenTx) -> String {
-    let op = w.op_of_tx(tx);
+    let transaction = w.to_transaction(tx);
+    let op = w.op_of_tx(tx, transaction.transaction_id());
     w.hist.push(op.clone());
     let db = w.db.as_ref().unwrap();
     let t0 = Instant::now();
-    let res = tokio::time::timeout(APPEND_TIMEOUT, db.append_events(w.to_transaction(tx))).await;
+    let res = tokio::time::timeout(APPEND_TIMEOUT, db.append_events(transaction)).await;
     let dt = t0.elapsed();
     let mut spec2 = w.spec.clone();
     // with compression the stored size decides (never too large for the generated payloads)
@@ -40,7 +41,8 @@ pub async fn do_append(ctx: &mut Ctx, w: &mut World, tx: &GenTx) -> String {
         }
         Ok(Ok(r)) => {
             let vs: BTreeMap<String, u64> = r.stream_versions.iter().map(|(k, v)| (k.to_string(), *v)).collect();
-            format!("ok {} {} [{}]", r.first_partition_sequence, r.last_partition_sequence, vs.iter().map(|(k, v)| format!("{k}:{v}")).collect::<Vec<_>>().join(","))
+            format!("ok {} {} [{}] offs={}", r.first_partition_sequence, r.last_partition_sequence, vs.iter().map(|(k, v)| format!("{k}:{v}")).collect::<Vec<_>>().join(","),
+                r.offsets.iter().map(|o| o.to_string()).collect::<Vec<_>>().join(","))
         }
         Ok(Err(e)) => format!("err {}", err_class(e)),
     };
